@@ -952,6 +952,8 @@ pub struct CliCfg {
 	pub out: OutCfg,
 	/// (limit, short option?)
 	pub max_stack: Option<(usize, bool)>,
+	/// `--os-stack <MiB>`: the evaluation runs on a thread of that stack size; every other setting means the same
+	pub os_stack: Option<usize>,
 	pub opts_first: bool,
 }
 
@@ -1084,7 +1086,11 @@ pub fn gen_cli(src: &mut Src) -> CliCfg {
 			v.fault = 2 + src.below(2) as u8;
 		}
 	}
-	CliCfg { tree, prog, ext, tla, jdirs, envdirs, input, out, max_stack, opts_first: src.chance(1, 2) }
+	let os_stack = match src.below(5) {
+		0 => Some(*src.pick(&[16usize, 64])),
+		_ => None,
+	};
+	CliCfg { tree, prog, ext, tla, jdirs, envdirs, input, out, max_stack, os_stack, opts_first: src.chance(1, 2) }
 }
 
 impl CliCfg {
@@ -1157,6 +1163,10 @@ impl CliCfg {
 		if let Some((n, short)) = self.max_stack {
 			opts.push(if short { "-s".into() } else { "--max-stack".into() });
 			opts.push(n.to_string());
+		}
+		if let Some(mib) = self.os_stack {
+			opts.push("--os-stack".into());
+			opts.push(mib.to_string());
 		}
 		let o = &self.out;
 		if o.string {
@@ -1436,6 +1446,9 @@ pub fn cli_decide(cfg: &CliCfg) -> CaseOut {
 		.to_owned(),
 	);
 	classes.push(format!("cli:max-stack:{}", cfg.max_stack.map(|m| m.0.to_string()).unwrap_or("default".into())));
+	if cfg.os_stack.is_some() {
+		classes.push(format!("cli:--os-stack with max-stack {}", cfg.max_stack.map(|m| m.0.to_string()).unwrap_or("default".into())));
+	}
 	classes.push(format!("cli:-J x{}", cfg.jdirs.len()));
 	classes.push(format!("cli:JSONNET_PATH x{}", cfg.envdirs.len()));
 	let search = cfg.search();
@@ -2524,7 +2537,7 @@ fn decide_known_text(id: &str, replay: &str, known: &[String]) -> CaseOut {
 }
 
 pub fn run(run: &Run) {
-	run.set_rule("(cli) generated configurations: 0-3 external variables and 0-3 top-level arguments, each supplied in one of the six flavours of the executable (name=value, value from the environment, code, code from the environment, string file, code file; long / = / short option forms; values with =, spaces, quotes, newlines, non-ASCII, empty; missing environment variable / file, non-UTF-8 file), 0-3 -J directories and 0-2 JSONNET_PATH entries with shadowed library files, program given as file / -e / stdin, reading the variables, importing through the search path, recursing against --max-stack, shaped to fit or not fit the output mode (default, -S, -y, -f string|json|yaml|toml|xml-jsonml|ini, --line-padding, -o, -m, -c). Oracle: the Rust library API driven according to the documented meaning of every option (State + FileImportResolver over [reversed -J, JSONNET_PATH], stdlib ContextInitializer with the ext vars, apply_tla, Val::manifest with the named format): exit status 0 <=> Ok, stdout = manifestation + newline (nothing for an empty one), -o file content, -m one file per field + listing; on error non-zero exit, message on stderr, nothing on stdout. (capi) the same kind of program through libjsonnet.so loaded with dlopen in an isolated worker: jsonnet_make / ext_var / ext_code / tla_var / tla_code / jpath_add / max_stack / string_output / import_callback (in-memory tree) / native_callback (three natives built on json_make_* / json_extract_* / array_append / object_append / json_destroy) / realloc / evaluate_{snippet,file}{,_multi,_stream} (double-NUL lists decoded) / destroy, a second VM with other settings; text and error flag equal the library API with the same settings. (deps) C07 import graphs with every import moved into one of 16 syntactic positions (15 of them never evaluated): the output of jrsonnet-deps equals, as a set of canonical paths, the harness's own transitive scan of the graph it generated, and every file a recording resolver sees loaded by a real evaluation is in it. Non-trivial: (cli) at least two supplied variables reach the output or an import resolves through the search path; (capi) at least two of {ext var, TLA, natives, import callback, jpath}; (deps) a search path, an import in dead code, or >= 3 files.");
+	run.set_rule("(cli) generated configurations: 0-3 external variables and 0-3 top-level arguments, each supplied in one of the six flavours of the executable (name=value, value from the environment, code, code from the environment, string file, code file; long / = / short option forms; values with =, spaces, quotes, newlines, non-ASCII, empty; missing environment variable / file, non-UTF-8 file), 0-3 -J directories and 0-2 JSONNET_PATH entries with shadowed library files, program given as file / -e / stdin, reading the variables, importing through the search path, recursing against --max-stack (also on the thread that --os-stack makes), shaped to fit or not fit the output mode (default, -S, -y, -f string|json|yaml|toml|xml-jsonml|ini, --line-padding, -o, -m, -c). Oracle: the Rust library API driven according to the documented meaning of every option (State + FileImportResolver over [reversed -J, JSONNET_PATH], stdlib ContextInitializer with the ext vars, apply_tla, Val::manifest with the named format): exit status 0 <=> Ok, stdout = manifestation + newline (nothing for an empty one), -o file content, -m one file per field + listing; on error non-zero exit, message on stderr, nothing on stdout. (capi) the same kind of program through libjsonnet.so loaded with dlopen in an isolated worker: jsonnet_make / ext_var / ext_code / tla_var / tla_code / jpath_add / max_stack / string_output / import_callback (in-memory tree) / native_callback (three natives built on json_make_* / json_extract_* / array_append / object_append / json_destroy) / realloc / evaluate_{snippet,file}{,_multi,_stream} (double-NUL lists decoded) / destroy, a second VM with other settings; text and error flag equal the library API with the same settings. (deps) C07 import graphs with every import moved into one of 16 syntactic positions (15 of them never evaluated): the output of jrsonnet-deps equals, as a set of canonical paths, the harness's own transitive scan of the graph it generated, and every file a recording resolver sees loaded by a real evaluation is in it. Non-trivial: (cli) at least two supplied variables reach the output or an import resolves through the search path; (capi) at least two of {ext var, TLA, natives, import callback, jpath}; (deps) a search path, an import in dead code, or >= 3 files.");
 	run.assume("value files of --*-file options are only made faulty (missing / not UTF-8) where the program certainly demands the value: whether an unused file is read at all is not documented");
 	run.assume("code given through --ext-code-file / --tla-code-file imports only through the search path or from the working directory: whether such imports are relative to the file or to the working directory is not documented");
 	run.assume("`-f string` is compared with the library's ToStringFormat (the --help text 'Expect string as output' would also fit StringFormat, which -S uses)");
@@ -2560,7 +2573,7 @@ pub fn run(run: &Run) {
 	for c in ["cli:sink:stdout", "cli:sink:-o", "cli:sink:-o -c", "cli:sink:-m", "cli:sink:-m -c", "cli:--line-padding", "cli:input:file", "cli:input:-e", "cli:input:stdin", "cli:max-stack:default", "cli:max-stack:20", "cli:max-stack:200", "cli:max-stack:1000", "cli:shadowing", "cli:import-through-search-path", "cli:lib:value", "cli:lib:error", "cli:error:mode-inapplicable", "cli:error:program-or-options", "cli:short-option"] {
 		run.require_class(c, 60);
 	}
-	for c in ["cli:supply-fault:env-missing", "cli:supply-fault:file-missing", "cli:supply-fault:file-not-utf8"] {
+	for c in ["cli:supply-fault:env-missing", "cli:supply-fault:file-missing", "cli:supply-fault:file-not-utf8", "cli:--os-stack with max-stack default", "cli:--os-stack with max-stack 20", "cli:--os-stack with max-stack 1000"] {
 		run.require_class(c, 15);
 	}
 	for c in [
